@@ -124,7 +124,9 @@ Fixpoint words (l : list Z) : list Z :=
 Fixpoint bits_of_byte (n : nat) (b : Z) : list Z :=
   match n with O => [] | S k => (b mod 2) :: bits_of_byte k (b / 2) end.
 
-(* PDU -> write request.  Lenient where the code under test is known to be lenient for reasons
+(* PDU -> write request.  STRICT about a PDU that is shorter than its own header announces (fewer
+   data bytes than the byte count, or a byte count that does not match the quantity): such a
+   PDU is not a write request, so any datastore change it causes is unexplained.  Lenient where the code under test is known to be lenient for reasons
    owned by C05 (FC5 value word other than FF00 clears; FC15 writes every bit of the data bytes;
    bytes after a complete request PDU are ignored — finding F-C12-overlong-pdu-executed). *)
 Definition pdu_write (uid : Z) (pdu : list Z) : option wreq :=
@@ -176,16 +178,100 @@ Definition explains (single bcast : bool) (c : cell) (w : wreq) : bool :=
                           (Z.lor (Z.land (ce_old c) andm) (Z.land orm (Z.lxor andm 65535)) =? ce_new c)
   end.
 
+(* -- the other framings: a contained request is a checksum-valid frame of that framing -------- *)
+
+Inductive framing := FSocket | FAscii | FBinary | FTls.
+
+(* CRC-16/MODBUS, bit by bit (polynomial 0xA001 reflected, initial value 0xFFFF) *)
+Fixpoint crc_bits (n : nat) (c : Z) : Z :=
+  match n with
+  | O => c
+  | S k => crc_bits k (if Z.odd c then Z.lxor (Z.shiftr c 1) 40961 else Z.shiftr c 1)
+  end.
+Definition crc16 (l : list Z) : Z := fold_left (fun c b => crc_bits 8 (Z.lxor c b)) l 65535.
+Definition lrc8 (l : list Z) : Z := (- fold_left Z.add l 0) mod 256.
+
+Definition hexval (c : Z) : option Z :=
+  if (48 <=? c) && (c <=? 57) then Some (c - 48)
+  else if (65 <=? c) && (c <=? 70) then Some (c - 55)
+  else if (97 <=? c) && (c <=? 102) then Some (c - 87)
+  else None.
+
+(* hex pairs up to the first CR LF *)
+Fixpoint hex_until_crlf (s : list Z) (acc : list Z) : option (list Z) :=
+  match s with
+  | 13 :: 10 :: _ => Some (rev acc)
+  | h :: l :: t => match hexval h, hexval l with
+                   | Some a, Some b => hex_until_crlf t ((a * 16 + b) :: acc)
+                   | _, _ => None
+                   end
+  | _ => None
+  end.
+
+(* ':' uid pdu lrc CR LF, all in hex *)
+Definition ascii_write_at (s : list Z) : list wreq :=
+  match s with
+  | 58 :: rest =>
+      match hex_until_crlf rest [] with
+      | Some bs =>
+          let n := length bs in
+          match firstn (n - 1) bs, skipn (n - 1) bs with
+          | uid :: pdu, [l] => if lrc8 (uid :: pdu) =? l then
+                                 match pdu_write uid pdu with Some w => [w] | None => [] end
+                               else []
+          | _, _ => []
+          end
+      | None => []
+      end
+  | _ => []
+  end.
+
+(* '{' uid pdu crc(lo hi) '}' — every closing brace is tried (data may contain braces) *)
+Definition binary_check (body : list Z) : list wreq :=
+  let n := length body in
+  match firstn (n - 2) body, skipn (n - 2) body with
+  | uid :: pdu, [lo; hi] => if crc16 (uid :: pdu) =? lo + 256 * hi then
+                              match pdu_write uid pdu with Some w => [w] | None => [] end
+                            else []
+  | _, _ => []
+  end.
+
+Fixpoint binary_ends (pre rest : list Z) : list wreq :=
+  match rest with
+  | [] => []
+  | c :: t => (if c =? 125 then binary_check (rev pre) else []) ++ binary_ends (c :: pre) t
+  end.
+
+Definition binary_write_at (s : list Z) : list wreq :=
+  match s with 123 :: rest => binary_ends [] rest | _ => [] end.
+
+Fixpoint scan (f : list Z -> list wreq) (s : list Z) : list wreq :=
+  match s with [] => [] | _ :: t => f s ++ scan f t end.
+
+(* TLS framing: one read = one PDU, no unit id (requests carry unit 0) *)
+Definition contained (fr : framing) (s : list Z) : list wreq :=
+  match fr with
+  | FSocket => contained_writes s
+  | FAscii => scan ascii_write_at s
+  | FBinary => scan binary_write_at s
+  | FTls => match pdu_write 0 s with Some w => [w] | None => [] end
+  end.
+
 Record scase := {
+  sc_framing : framing;
   sc_single : bool; sc_bcast : bool;
-  sc_streams : list (list Z);        (* the bytes received, per connection / datagram *)
+  sc_streams : list (list Z);        (* the bytes received, per connection / datagram (TLS: per read) *)
   sc_cells : list cell;              (* every cell whose value changed, with the value before and after *)
   sc_steps : list (nat * bool) }.    (* per activation: requests delivered, datastore changed *)
 
 Definition chk_store (c : scase) : bool * bool :=
-  let ws := flat_map contained_writes (sc_streams c) in
+  let ws := flat_map (contained (sc_framing c)) (sc_streams c) in
   (forallb (fun s => negb (Nat.eqb (fst s) 0) || negb (snd s)) (sc_steps c),
    forallb (fun ce => (ce_table ce <=? 1) && existsb (explains (sc_single c) (sc_bcast c) ce) ws) (sc_cells c)).
+
+(* sanity: CRC-16/MODBUS of "123456789" is 0x4B37; LRC of 01 03 00 00 00 01 is FB *)
+Definition crc_selftest : bool :=
+  (crc16 [49; 50; 51; 52; 53; 54; 55; 56; 57] =? 19255) && (lrc8 [1; 3; 0; 0; 0; 1] =? 251).
 
 (* ---- suite "equiv" (C17): the same traffic through the three front-ends ----------------- *)
 
